@@ -1,7 +1,11 @@
 """C11 - every intermediate on-disk state of the store is readable and a prefix state.
 Implementation: prometheus_client.mmap_dict.MmapedDict with its file effects interposed; after each effect the file
 is copied and the copy is read by read_all_values_from_file, reopened by a new MmapedDict, and (some cases) scraped by
-MultiProcessCollector together with complete files.  Model: coq/model/MmapDict.v (effect traces and their cuts)."""
+MultiProcessCollector together with complete files.  close() is a file operation too (file compared before/after), also
+when run by a really forked child on the handle it inherited while the parent writes on; worker files of every metric
+type are cut inside label-group creation and scraped (no series may appear that nobody wrote); files of every kind
+vanish between the collector's listing and its read.  Model: coq/model/MmapDict.v (effect traces and their cuts,
+close_effects, wop/wrun for forked children, read_listed for vanished files)."""
 import os
 import shutil
 import signal
@@ -22,13 +26,27 @@ RULE = ('writer histories as in C10 (new keys, overwrites, read_value initialisa
         'collector cases scraped by MultiProcessCollector with two complete worker files beside it; CONTINUATION: from every cut file with a '
         'non-zero tail beyond the used bytes (the unpublished entry of a stopped writer) and from some others, a NEW MmapedDict reopens a '
         'copy and performs further ops - read_value/write_value of keys shorter and longer than the history\'s keys, overwrites, reopen - '
-        'with all read paths observed after every step and compared with the model run on the same file bytes (open_, then steps); exhaustive slice: all histories of '
+        'with all read paths observed after every step and compared with the model run on the same file bytes (open_, then steps); '
+        'CLOSE as a file operation: the file is compared before and after every close() (reopen, end of history) and the model\'s close_effects; '
+        'FORKED CHILDREN: at chosen points of the history the writer process really fork()s, the child holds the inherited handle and '
+        'later closes it (what its first metric operation does, values.py) while the parent keeps writing through its own mapping - the '
+        'file must be unchanged by that close and every later cut is observed as usual (model: wop Fork/CloseInherited); '
+        'TYPED WORKER FILES: collector cases also as histogram_/summary_/gauge_<mode>_ files whose histories are label-group creations in the '
+        'library\'s order (_sum, buckets ... +Inf; _count, _sum; one gauge key) cut between the entry appends, beside complete files that do '
+        'NOT hold the groups being created; at every cut collect() must report only series whose keys some writer wrote (the derived '
+        'histogram _count of a group with a written bucket aside); VANISHING FILES: a file of EVERY kind the library knows '
+        '(gauge_<mode> for all of Gauge._MULTIPROC_MODES, counter, histogram, summary) is removed between the listing and the read: the '
+        'live ones (those mark_process_dead removes) must be skipped silently, outcome of every kind compared with the model\'s read_listed; '
+        'exhaustive slice: all histories of '
         'length <= 2 over a 9-op alphabet at a small size; thorough tier: forked writers SIGKILLed at random instants (direct oracle only); '
         'non-trivial = the history has at least 4 distinct cut states; distinct by case')
 TRUSTED = ['a slice assignment to a shared mapping is observed whole by a concurrent read (atomicity at slice granularity is the model\'s '
            'granularity; torn slices are not explored)',
            'pages written through a MAP_SHARED mapping survive SIGKILL of the writer (kernel page cache)',
            'cut points are observed at Python level: interposed open/truncate/mmap.__setitem__ plus per-line snapshots',
+           'fork() gives the child the parent\'s handle as it is (same open file description, same MAP_SHARED mapping); the child that '
+           'closes it is a real forked process, the closes are placed at operation boundaries of the parent',
+           'a file removed between glob() and open() is simulated by unlinking it right after the listing call returns',
            'UTF-8 and struct facts as in C10']
 ASSUMPTIONS = ['keys are encodable strings; used bytes < 2^31',
                'the reader is run on a private copy of each cut file (a reader concurrent with further writes sees one of the later cuts)']
@@ -88,9 +106,101 @@ def rand_cont(rng, ops):
 
 def cases(ctx):
     for case in base_cases(ctx):
-        if 'kill_us' not in case and 'cont' not in case:
+        if 'kill_us' not in case and 'cont' not in case and 'forks' not in case:
             case['cont'] = rand_cont(ctx.rng, case['ops'])
         yield case
+
+
+# ---- typed worker files: the keys a label group of each metric type creates, in the library's order
+HELP = 'help text'
+DEFAULT_BOUNDS = ('0.005', '0.01', '0.025', '0.05', '0.075', '0.1', '0.25', '0.5', '0.75', '1.0', '2.5', '5.0', '7.5', '10.0', '+Inf')
+FALLBACK_GAUGE_MODES = ('all', 'liveall', 'min', 'livemin', 'max', 'livemax', 'sum', 'livesum', 'mostrecent', 'livemostrecent')
+
+
+def gauge_modes():
+    """the library's own mode set (falls back to the documented ten when the attribute is not there)"""
+    try:
+        from prometheus_client import Gauge
+        return sorted(Gauge._MULTIPROC_MODES)
+    except Exception:
+        return list(FALLBACK_GAUGE_MODES)
+
+
+def mkey(metric, name, labels):
+    import json
+    return json.dumps([metric, name, labels, HELP], sort_keys=True)
+
+
+def group_keys(typ, metric, labels, bounds):
+    """the keys one label group creates (values.ValueClass(...) calls of _metric_init), in creation order"""
+    if typ == 'histogram':
+        return [mkey(metric, metric + '_sum', labels)] + \
+               [mkey(metric, metric + '_bucket', dict(labels, le=b)) for b in bounds]
+    if typ == 'summary':
+        return [mkey(metric, metric + '_count', labels), mkey(metric, metric + '_sum', labels)]
+    if typ == 'counter':
+        return [mkey(metric, metric + '_total', labels)]
+    return [mkey(metric, metric, labels)]
+
+
+def small_bits(rng):
+    return bits(float(rng.randrange(0, 50)) / rng.choice((1, 2, 4)))
+
+
+def typed_case(rng, typ=None):
+    """a worker file of a metric type: label groups are created one after the other (read_value of every key of the
+    group = one entry append each), with observations in between; `other` is a complete file of another worker which
+    does not hold the groups created later"""
+    typ = typ or rng.choice(['histogram'] * 5 + ['summary'] * 2 + ['gauge_' + m for m in gauge_modes()] + ['counter'])
+    kind = typ.split('_')[0]
+    metric = rng.choice(('h', 'lat', 'm0'))
+    bounds = rng.choice((('0.5', '1.0', '+Inf'), ('1.0', '+Inf'), ('0.1', '1.0', '10.0', '+Inf'), DEFAULT_BOUNDS))
+    labs = rng.sample(['a', 'b', 'c', '', '\xe9 x', '+Inf', '\U0001F600'], rng.randrange(1, 4))
+    ops = []
+    created = []
+    for li, lab in enumerate(labs):
+        labels = {'g': lab}
+        keys = group_keys(kind, metric, labels, bounds)
+        ops += [['R', k] for k in keys]
+        created.append(keys)
+        for _ in range(rng.randrange(0, 3)):
+            keys2 = rng.choice(created)
+            if kind == 'histogram':
+                ops.append(['W', rng.choice(keys2[1:]), small_bits(rng), 0])
+                ops.append(['W', keys2[0], small_bits(rng), 0])
+            elif kind == 'summary':
+                ops.append(['W', keys2[0], small_bits(rng), 0])
+                ops.append(['W', keys2[1], small_bits(rng), 0])
+            else:
+                ts = bits(float(rng.randrange(1, 2000))) if kind == 'gauge' and rng.random() < 0.7 else 0
+                ops.append(['W', keys2[0], small_bits(rng) if rng.random() < 0.8 else rand_bits(rng), ts])
+        if rng.random() < 0.12:
+            ops.append(['O'])
+    # the other worker: a group nobody else has, and sometimes the FIRST group of this worker (never the later ones)
+    other = []
+    for labels in [{'g': 'zz'}] + ([{'g': labs[0]}] if rng.random() < 0.5 else []):
+        for k in group_keys(kind, metric, labels, bounds):
+            other.append([k, small_bits(rng), bits(float(rng.randrange(1, 2000))) if kind == 'gauge' else 0])
+    return {'isz': rng.choice((65536, 65536, 64, 256, 1000)), 'ops': ops, 'coll': True, 'typ': typ, 'other': other}
+
+
+def rand_forks(rng, nops, n=None):
+    """[[i_fork, i_close or None]]: a child is forked before op i_fork and closes its inherited handle before op i_close
+    (nops = after the last op); children close in the order they were forked"""
+    n = n or rng.choice((1, 1, 1, 2, 3))
+    fs = sorted(rng.randrange(nops + 1) for _ in range(n))
+    out = []
+    last = 0
+    for f in fs:
+        if rng.random() < 0.1:
+            out.append([f, None])
+            continue
+        c = rng.randrange(max(f, last), nops + 1)
+        if rng.random() < 0.3:
+            c = max(f, last)
+        out.append([f, c])
+        last = c
+    return out
 
 
 def base_cases(ctx):
@@ -114,6 +224,32 @@ def base_cases(ctx):
             if ctx.thorough:
                 for c in alpha:
                     yield {'isz': 8, 'ops': [a, b, c]}
+    # forked children closing the handle they inherited while the writer goes on (one (fork, close) pair per history,
+    # all pairs over the slice), then at the real size with new keys after the child's close
+    pairs = [(i, j) for i in range(3) for j in range(i, 3)]
+    n = 0
+    for a in alpha:
+        for b in alpha:
+            i, j = pairs[n % len(pairs)]
+            n += 1
+            yield {'isz': 32, 'ops': [a, b], 'forks': [[i, j]]}
+    for isz in (65536, 64):
+        yield {'isz': isz, 'ops': [['W', 'a', 0x3ff0000000000000, 0], ['W', 'b', 0x4000000000000000, 0], ['R', 'c']],
+               'forks': [[1, 1]]}
+        yield {'isz': isz, 'ops': [['W', 'a', 0x3ff0000000000000, 0], ['W', 'b', 0x4000000000000000, 0], ['O'], ['R', 'c'],
+                                   ['W', 'a', 1, 2]], 'forks': [[1, 2], [2, 4]]}
+    for i in range(ctx.n(40, 1500)):
+        ops = rand_history(rng, rng.choice((2, 3, 5, 8)), rng.randrange(1, 10))
+        if rng.random() < 0.15:
+            big = [rng.choice(('a', '\xe9')), rng.randrange(100, 5000), rand_key(rng, 6)]
+            ops.insert(rng.randrange(len(ops) + 1), ['W', big, rand_bits(rng), rand_bits(rng)])
+        yield {'isz': 65536 if rng.random() < 0.6 else rng.choice((8, 64, 100, 4096)), 'ops': ops,
+               'forks': rand_forks(rng, len(ops))}
+    # typed worker files (histogram / summary / gauge modes) cut inside label-group creation, scraped at every cut
+    for typ in ('histogram', 'histogram', 'summary', 'gauge_all', 'gauge_livemostrecent', 'gauge_min'):
+        yield typed_case(rng, typ)
+    for i in range(ctx.n(26, 1200)):
+        yield typed_case(rng)
     # growth at the real size: 1 and 2 doublings, in flight at every effect
     for n in ((65507, 65508, 140000) if not ctx.thorough else (65500, 65507, 65508, 65537, 140000, 300003)):
         yield {'isz': 65536, 'ops': [['W', 'p', 1, 2], ['W', ['x', n, ''], 0x7ff8000000000001, 3], ['W', 'after', 4, 5]]}
@@ -253,13 +389,44 @@ def collect_dir(d):
     return out
 
 
-def collect_vanishing(mod, d):
-    """collect() while gauge_livesum_777.db is removed right after the first directory listing (or, at the latest, just
-    before the first file is read)"""
+_KINDS = [None]
+
+
+def victim_kinds(mod):
+    """[(file name, live?)]: one file name of pid 777 per kind of worker file the library knows - gauge_<mode> for every
+    mode of Gauge._MULTIPROC_MODES, counter, histogram, summary.  live = the files the library's own mark_process_dead
+    removes (found by running it on a scratch directory) or whose mode starts with 'live'."""
+    if _KINDS[0] is None:
+        names = ['gauge_%s_777.db' % m for m in gauge_modes()] + ['counter_777.db', 'histogram_777.db', 'summary_777.db']
+        removed = set()
+        tmp = tempfile.mkdtemp(prefix='c11v-')
+        try:
+            from prometheus_client.multiprocess import mark_process_dead
+            for n in names:
+                with open(os.path.join(tmp, n), 'wb') as f:
+                    f.write(b'')
+            mark_process_dead(777, tmp)
+            removed = set(names) - set(os.listdir(tmp))
+        except Exception:
+            pass
+        finally:
+            shutil.rmtree(tmp, ignore_errors=True)
+        _KINDS[0] = [(n, n in removed or (n.startswith('gauge_') and n.split('_')[1].startswith('live'))) for n in names]
+    return _KINDS[0]
+
+
+def victim_entries(name):
+    kind = name.split('_')[0]
+    metric = 'v' + kind
+    return [(k, 4.0, 7.0) for k in group_keys(kind, metric, {}, ('1.0', '+Inf'))]
+
+
+def collect_vanishing(mod, d, name):
+    """collect() while the file `name` (of pid 777) is removed right after the first directory listing (or, at the
+    latest, just before the first file is read)"""
     import glob as _glob
-    victim = os.path.join(d, 'gauge_livesum_777.db')
-    import json
-    write_complete(mod, victim, [(json.dumps(['vg', 'vg', {}, 'help vg'], sort_keys=True), 4.0, 0.0)])
+    victim = os.path.join(d, name)
+    write_complete(mod, victim, victim_entries(name))
     armed = [True]
 
     def fire():
@@ -292,12 +459,37 @@ def collect_vanishing(mod, d):
             os.unlink(victim)
 
 
-def observe_cut(mod, raw, tmp, coll, others):
+def series_of_key(key):
+    """(sample name, sorted label items) of an mmap_key string"""
+    import json
+    metric, name, labels, _help = json.loads(key)
+    return (name, tuple(sorted((str(a), str(b)) for a, b in labels.items())))
+
+
+def phantoms(collected, written):
+    """samples of a scrape whose series no writer wrote.  Not counted: the pid label the collector adds to gauges, and
+    the histogram _count the collector derives for a label group of which at least one bucket was written."""
+    out = []
+    for fam_name, fam_type, sname, labels, _v in collected:
+        labels = tuple((a, b) for a, b in labels)
+        if (sname, labels) in written:
+            continue
+        nopid = tuple(l for l in labels if l[0] != 'pid')
+        if fam_type == 'gauge' and (sname, nopid) in written:
+            continue
+        if fam_type == 'histogram' and sname == fam_name + '_count' and any(
+                n == fam_name + '_bucket' and tuple(l for l in ls if l[0] != 'le') == labels for n, ls in written):
+            continue
+        out.append([sname, [list(l) for l in labels]])
+    return out
+
+
+def observe_cut(mod, raw, tmp, coll, others, fname='counter_100.db', victims=()):
     """Observations on a private copy of one cut file."""
     cdir = os.path.join(tmp, 'cut')
     shutil.rmtree(cdir, ignore_errors=True)
     os.mkdir(cdir)
-    p1 = os.path.join(cdir, 'counter_100.db')
+    p1 = os.path.join(cdir, fname)
     with open(p1, 'wb') as f:
         f.write(raw)
     reader = attempt(lambda: canon_entries(mod.MmapedDict.read_all_values_from_file(p1)))
@@ -306,14 +498,21 @@ def observe_cut(mod, raw, tmp, coll, others):
         for name, ents in others:
             write_complete(mod, os.path.join(cdir, name), ents)
         extra['collect'] = attempt(lambda: collect_dir(cdir))
-        # a dead worker's live gauge file vanishes (mark_process_dead) between the collector's listing and its reads:
-        # the scrape must succeed and report what the directory holds without that file
-        extra['collect_vanish'] = attempt(lambda: collect_vanishing(mod, cdir))
-        # the same directory with the cut file replaced by a complete file holding what the reader returned
+        # a worker's file vanishes between the collector's listing and its reads.  For the files mark_process_dead removes
+        # (a dead worker's live gauges) the scrape must succeed and report what the directory holds without that file.
+        extra['vanish'] = [[name, attempt(lambda: collect_vanishing(mod, cdir, name))] for name in victims]
         if reader[0] == 'ok':
-            os.unlink(p1)
             try:
-                ents = [(k, frombits(v), frombits(t)) for (k, v, t) in _decode_entries(mod, raw)]
+                dec = _decode_entries(mod, raw)
+                # no series may be reported whose key no writer wrote
+                if extra['collect'][0] == 'ok':
+                    written = {series_of_key(k) for k, _v, _t in dec}
+                    for _n, ents in others:
+                        written |= {series_of_key(k) for k, _v, _t in ents}
+                    extra['phantom'] = phantoms(extra['collect'][1], written)[:4]
+                # the same directory with the cut file replaced by a complete file holding what the reader returned
+                os.unlink(p1)
+                ents = [(k, frombits(v), frombits(t)) for (k, v, t) in dec]
                 write_complete(mod, p1, ents)
                 extra['collect_clean'] = attempt(lambda: collect_dir(cdir))
             except Exception as e:
@@ -404,6 +603,171 @@ def impl_kill(case):
         shutil.rmtree(tmp, ignore_errors=True)
 
 
+def _read(path):
+    with open(path, 'rb') as f:
+        return f.read()
+
+
+def wops_of(case):
+    """the history with its forks merged in: ops, ['F'] (a child is forked), ['C'] (the oldest child that will close
+    closes its inherited handle).  Children that never close have no effect on the file and are left out."""
+    ops = case['ops']
+    forks = [f for f in case.get('forks') or [] if f[1] is not None]
+    out = []
+    for i in range(len(ops) + 1):
+        out += [['F'] for f in forks if min(f[0], len(ops)) == i]
+        out += [['C'] for f in forks if min(f[1], len(ops)) == i]
+        if i < len(ops):
+            out.append(ops[i])
+    return out
+
+
+class Children:
+    """forked copies of the writer process, each blocked on a pipe until told to close the handle it inherited"""
+
+    def __init__(self):
+        self.live = []          # (pid, write end)
+
+    def fork(self, d):
+        r, w = os.pipe()
+        pid = os.fork()
+        if pid == 0:
+            code = 0
+            try:
+                sys.settrace(None)
+                os.close(w)
+                cmd = os.read(r, 1)
+                if cmd == b'c':
+                    d.close()           # what the child's first metric operation does with every inherited file
+            except BaseException:
+                code = 1
+            finally:
+                os._exit(code)
+        os.close(r)
+        self.live.append((pid, w))
+        return pid
+
+    def tell(self, pid, cmd):
+        for i, (p, w) in enumerate(self.live):
+            if p == pid:
+                del self.live[i]
+                try:
+                    os.write(w, cmd)
+                finally:
+                    os.close(w)
+                _, status = os.waitpid(p, 0)
+                return status
+        return None
+
+    def reap(self):
+        for p, _w in list(self.live):
+            self.tell(p, b'x')
+
+
+def sacrificial(mod, path, d, ops):
+    """in a forked copy of the writer (so that a SIGBUS stays there): go on with `ops`, then read the file"""
+    r, w = os.pipe()
+    pid = os.fork()
+    if pid == 0:
+        try:
+            sys.settrace(None)
+            os.close(r)
+            try:
+                for op in ops:
+                    if op[0] == 'W':
+                        d.write_value(key_str(op[1]), frombits(op[2]), frombits(op[3]))
+                    elif op[0] == 'R':
+                        d.read_value(key_str(op[1]))
+                    else:
+                        break
+                msg = 'the writer goes on (%d op(s)); then ' % len(ops)
+            except Exception as e:
+                msg = 'the writer then raises %s; ' % exc_kind(e)
+            try:
+                n = len(list(mod.MmapedDict.read_all_values_from_file(path)))
+                msg += 'read_all_values_from_file returns %d entries' % n
+            except Exception as e:
+                msg += 'read_all_values_from_file raises %s' % exc_kind(e)
+            os.write(w, msg.encode())
+        finally:
+            os._exit(0)
+    os.close(w)
+    msg = b''
+    while True:
+        b = os.read(r, 4096)
+        if not b:
+            break
+        msg += b
+    os.close(r)
+    _, status = os.waitpid(pid, 0)
+    if os.WIFSIGNALED(status):
+        return 'the writer, going on, is killed by signal %d' % os.WTERMSIG(status)
+    return msg.decode() or 'the writer, going on, exited %r' % status
+
+
+def run_history(mod, path, case, info):
+    """the writer's history with every close() observed as a file operation ([kind, size before, size after, same
+    bytes]) and, for fork cases, real forked children closing the handle they inherited"""
+    ops = case['ops']
+    forks = case.get('forks') or []
+    kids = Children()
+    pending = []                   # [pid, i_close] in fork order
+    closes = info['closes']
+    d = mod.MmapedDict(path)
+    try:
+        for i in range(len(ops) + 1):
+            for f in forks:
+                if min(f[0], len(ops)) == i:
+                    pending.append([kids.fork(d), None if f[1] is None else min(f[1], len(ops))])
+            for pc in list(pending):
+                if pc[1] == i:
+                    pending.remove(pc)
+                    before = _read(path)
+                    status = kids.tell(pc[0], b'c')
+                    after = _read(path)
+                    closes.append(['inherited', len(before), len(after), before == after])
+                    if status != 0:
+                        info['child_failed'] = status
+                    if before != after:
+                        # the file was changed under the writer's mapping: do not write through it in this process
+                        info['after_foreign_close'] = sacrificial(
+                            mod, path, d, [op for op in ops[i:i + 3] if op[0] != 'O'] or [['R', '\x00new-series-after-the-close']])
+                        info['stopped'] = i
+                        return d
+            if i == len(ops):
+                break
+            op = ops[i]
+            if op[0] == 'W':
+                d.write_value(key_str(op[1]), frombits(op[2]), frombits(op[3]))
+            elif op[0] == 'R':
+                d.read_value(key_str(op[1]))
+            else:
+                before = _read(path)
+                d.close()
+                after = _read(path)
+                closes.append(['own', len(before), len(after), before == after])
+                d = mod.MmapedDict(path)
+        return d
+    finally:
+        kids.reap()
+
+
+def typed_names(case):
+    """file name of the cut file and the complete files beside it"""
+    typ = case.get('typ') or 'counter'
+    return typ + '_100.db', typ + '_200.db'
+
+
+def vanish_plan(mod, case, n):
+    """the files that vanish during the scrape at the n-th distinct cut: all live kinds at the first cut, then one kind
+    after the other over ALL kinds"""
+    kinds = victim_kinds(mod)
+    if n == 0:
+        return [k for k, live in kinds if live]
+    salt = len(case['ops']) * 5 + len(case.get('typ') or '')
+    return [kinds[(salt + n) % len(kinds)][0]]
+
+
 def impl(case):
     if 'kill_us' in case:
         return impl_kill(case)
@@ -413,11 +777,12 @@ def impl(case):
     rec = Recorder(path)
     err = None
     d = None
+    info = {'closes': []}
     try:
         with patched_isz(mod, case['isz']):
             undo = install(mod, rec)
             try:
-                d = run_writer(mod, path, case['ops'])
+                d = run_history(mod, path, case, info)
             except Exception as e:
                 err = exc_kind(e)
             finally:
@@ -425,27 +790,40 @@ def impl(case):
             rec.snap()
             if d is not None:
                 try:
+                    before = _read(path)
                     d.close()
-                except Exception:
-                    pass
+                    after = _read(path)
+                    info['final_close'] = [len(before), len(after), before == after]
+                    if 'stopped' not in info and err is None:
+                        info['closes'].append(['final', len(before), len(after), before == after])
+                except Exception as e:
+                    info['final_close'] = ['err', exc_kind(e)]
             coll = bool(case.get('coll'))
             others = []
+            fname, oname = typed_names(case)
             if coll:
                 ops = case['ops']
-                ks = [key_str(op[1]) for op in ops if op[0] != 'O']
-                others = [('counter_200.db', [(k, float(i + 1), 0.0) for i, k in enumerate(ks[:2])]),
-                          ('counter_300.db', [(coll_key('other', 'z'), 7.0, 0.0)])]
+                if 'other' in case:
+                    others = [(oname, [(k, frombits(v), frombits(t)) for k, v, t in case['other']])]
+                else:
+                    ks = [key_str(op[1]) for op in ops if op[0] != 'O']
+                    others = [(oname, [(k, float(i + 1), 0.0) for i, k in enumerate(ks[:2])])]
+                others.append(('counter_300.db', [(coll_key('other', 'z'), 7.0, 0.0)]))
             cuts, extras = [], []
             for raw in rec.snaps:
-                o, extra = observe_cut(mod, raw, tmp, coll, others)
+                o, extra = observe_cut(mod, raw, tmp, False, [])
                 if not cuts or cuts[-1] != o:
+                    if coll:
+                        o, extra = observe_cut(mod, raw, tmp, True, others, fname, vanish_plan(mod, case, len(cuts)))
                     cuts.append(o)
                     extras.append(extra)
             conts = []
             for idx in select_cuts(rec.snaps, case):
                 conts.append(continue_from(mod, rec.snaps[idx], tmp, case.get('cont') or []))
-            res = {'cuts': cuts, 'extras': extras, 'writer_error': err, 'nsnaps': len(rec.snaps), 'conts': conts}
-            _LAST[0] = (_case_key(case), [c['file'] for c in conts])
+            vanish = [[name, r[0] if r[0] == 'ok' else 'err:' + str(r[1])] for e in extras for name, r in e.get('vanish', [])]
+            res = {'cuts': cuts, 'extras': extras, 'writer_error': err, 'nsnaps': len(rec.snaps), 'conts': conts,
+                   'closes': info['closes'], 'vanish': vanish, 'info': {k: v for k, v in info.items() if k != 'closes'}}
+            _LAST[0] = (_case_key(case), [c['file'] for c in conts], [v[0] for v in vanish])
             return res
     finally:
         shutil.rmtree(tmp, ignore_errors=True)
@@ -536,9 +914,10 @@ def model(m, case):
     if 'kill_us' in case:
         return None
     import mmap
-    r = m.call('c11_cuts', case['isz'], mmap.PAGESIZE, sx_ops(case['ops']))
+    r = m.call('c11_cuts', case['isz'], mmap.PAGESIZE, sx_wops(wops_of(case)))
     if r[0] == 'err':
         return {'cuts': [['err', r[1]]]}
+    closes = [[c[0], d_int(c[1]), d_int(c[2]), c[3] == 'T'] if c[1] != 'err' else [c[0], 'err'] for c in r[2]]
     cuts = []
     for c in r[1]:
         if c[0] in ('err', 'nofile'):
@@ -554,21 +933,46 @@ def model(m, case):
             cuts.append(o)
     # continuation: the model's open_ on the very cut files found on disk, then its steps
     conts = []
-    if case.get('cont'):
+    if case.get('cont') or case.get('coll'):
         if not _LAST[0] or _LAST[0][0] != _case_key(case):
             impl(case)
+    if case.get('cont'):
         for fhex, total in _LAST[0][1]:
             r = m.call('c11_cont', case['isz'], mmap.PAGESIZE, c10.BLOB_LIMIT, (bytes.fromhex(fhex), total),
                        sx_ops(case['cont']))
             conts.append([c10.d_step(st) for st in r])
-    return {'cuts': cuts, 'conts': conts}
+    # files that vanish between the listing and the read: the model's read_listed on (typ, parts[1]) of each name
+    vanish = []
+    if case.get('coll'):
+        for name in _LAST[0][2]:
+            parts = name.split('_')
+            if name not in _VANISH:
+                v = m.call('c11_vanish', mmap.PAGESIZE, parts[0].encode(), parts[1].encode())
+                _VANISH[name] = 'ok' if v[0] == 'ok' else 'err:' + v[1]
+            vanish.append([name, _VANISH[name]])
+    return {'cuts': cuts, 'conts': conts, 'closes': closes, 'vanish': vanish}
+
+
+_VANISH = {}
+
+
+def sx_wops(wops):
+    from .sx import Sym
+    out = []
+    for op in wops:
+        if op[0] in ('F', 'C'):
+            out.append((Sym(op[0]),))
+        else:
+            out += sx_ops([op])
+    return out
 
 
 def same(i, mo):
     if mo is None:
         return True
     return (i['cuts'] == mo['cuts'] and not i.get('writer_error')
-            and [c['steps'] for c in i.get('conts', [])] == mo.get('conts', []))
+            and [c['steps'] for c in i.get('conts', [])] == mo.get('conts', [])
+            and i.get('closes', []) == mo.get('closes', []) and i.get('vanish', []) == mo.get('vanish', []))
 
 
 # ---------------------------------------------------------------- direct oracle
@@ -590,6 +994,17 @@ def direct(case, obs):
     if obs.get('writer_error'):
         return 'the writer raised %s' % obs['writer_error']
     allowed = allowed_states(ops)
+    info = obs.get('info') or {}
+    # close() of a handle a forked child inherited must leave the file of the (live) parent alone
+    for c in obs.get('closes', []):
+        if c[0] == 'inherited' and c[-1] is not True:
+            return ('a forked child closed the MmapedDict it inherited (what its first metric operation does) and close() changed '
+                    'the file its parent is still writing through its own mapping: size %s -> %s%s; %s'
+                    % (c[1], c[2] if len(c) > 2 else '?', '' if len(c) < 4 or c[1] != c[2] else ' (bytes differ)',
+                       info.get('after_foreign_close', '')))
+    if info.get('child_failed'):
+        return 'close() of an inherited handle failed in the forked child (status %r)' % (info['child_failed'],)
+    live = None
     idx = 0
     for n, (o, extra) in enumerate(zip(obs['cuts'], obs['extras'])):
         reader, reopen = o
@@ -628,12 +1043,21 @@ def direct(case, obs):
         if 'collect' in extra:
             if extra['collect'][0] != 'ok':
                 return '%s: MultiProcessCollector.collect() raised %s with this worker file in the directory' % (what, extra['collect'][1])
-            cv = extra.get('collect_vanish')
-            if cv is not None and cv[0] != 'ok':
-                return ('%s: collect() raised %s when a dead worker\'s live gauge file vanished between listing and reading: one dead '
-                        'worker made the whole scrape fail' % (what, cv[1]))
-            if cv is not None and cv != extra['collect']:
-                return '%s: collect() with a vanishing live gauge file reports %r, without the file %r' % (what, cv, extra['collect'])
+            if live is None:
+                import prometheus_client.mmap_dict as mod
+                live = {k for k, l in victim_kinds(mod) if l}
+            for name, cv in extra.get('vanish', []):
+                if name not in live:
+                    continue           # not a file mark_process_dead removes: no tolerance demanded (outcome compared with the model)
+                if cv[0] != 'ok':
+                    return ('%s: collect() raised %s when %s - a live gauge file of a dead worker, which mark_process_dead removes - '
+                            'vanished between listing and reading: one dead worker made the whole scrape fail' % (what, cv[1], name))
+                if cv != extra['collect']:
+                    return '%s: collect() with the vanishing live gauge file %s reports %r, without the file %r' % (
+                        what, name, cv, extra['collect'])
+            if extra.get('phantom'):
+                return ('%s: collect() reports series whose keys no writer ever wrote: %r (worker file %s cut inside the creation of '
+                        'a label group)' % (what, extra['phantom'], typed_names(case)[0]))
             if extra.get('collect_clean') != extra['collect']:
                 return '%s: collect() over the cut file %r differs from collect() over the equivalent complete file %r' % (
                     what, extra['collect'], extra.get('collect_clean'))
@@ -642,6 +1066,9 @@ def direct(case, obs):
         if r:
             return 'continuation %d of %d (cut file of %d bytes, %d non-zero-terminated): %s' % (
                 ci + 1, len(obs['conts']), c['file'][1], len(c['file'][0]) // 2, r)
+    fc = info.get('final_close')
+    if fc and fc[0] == 'err':
+        return 'close() at the end of the history raised %s' % fc[1]
     if not obs.get('kill'):
         if not obs['cuts']:
             return 'no file state was observed'
@@ -717,6 +1144,20 @@ def classify(case, obs):
             out.append('inflight-state-observed')
         if o[0] == ['ok', []]:
             out.append('empty-state-observed')
+    if case.get('typ'):
+        out.append('typed-file=' + case['typ'])
+    for c in obs.get('closes', []):
+        out.append('close-observed=' + c[0])
+    if case.get('forks'):
+        out.append('fork-case')
+        nops = len(case['ops'])
+        if any(f[1] is not None and f[1] < nops and any(op[0] != 'O' for op in case['ops'][f[1]:]) for f in case['forks']):
+            out.append('fork-case-writer-goes-on-after-child-close')
+    for name, r in obs.get('vanish', []):
+        out.append('vanish=%s:%s' % (name[:-7], r))
+    for e in obs.get('extras', []):
+        if case.get('typ') == 'histogram' and 'phantom' in e:
+            out.append('histogram-cut-scraped')
     return out
 
 
@@ -725,6 +1166,12 @@ def _keep(case, c):
         c['coll'] = True
     if case.get('cont'):
         c['cont'] = case['cont']
+    for k in ('typ', 'other'):
+        if k in case:
+            c[k] = case[k]
+    if case.get('forks'):
+        n = len(c['ops'])
+        c['forks'] = [[min(f[0], n), None if f[1] is None else min(f[1], n)] for f in case['forks']]
     return c
 
 
@@ -738,3 +1185,7 @@ def shrinks(case):
     cont = case.get('cont') or []
     for i in range(len(cont)):
         yield dict(case, cont=cont[:i] + cont[i + 1:])
+    forks = case.get('forks') or []
+    if len(forks) > 1:
+        for i in range(len(forks)):
+            yield dict(case, forks=forks[:i] + forks[i + 1:])
